@@ -29,6 +29,8 @@ RADIALS = [
     ("(0.5, 0.25)", ["0.25", "0.5"]),
     ("range(1.4, 4.4)", ["1.4", "2.4", "3.4"]),
 ]
+CLOSE_RADII = [("[0.2, 0.2001, 0.5]", ["0.2", "0.2001", "0.5"]), ("[0.01, 5]", ["0.01", "5"]),
+               ("[0.3, 0.30000001]", ["0.3", "0.30000001"])]
 MANY_SHELLS = [("linspace(0.1, 2.3, 12)", [str(F(1, 10) + F(22, 110) * i) for i in range(12)]),
                ("[0.05, 0.1, 0.2, 0.4, 0.8, 1.6, 3.2, 6.4]", ["0.05", "0.1", "0.2", "0.4", "0.8", "1.6", "3.2", "6.4"])]
 RADIALS_T = RADIALS + [
@@ -168,6 +170,9 @@ def cases(tier):
     for alg in ("ico", "cube3D", "randomS"):
         for N in Ns:
             for tname, tv in rads:
+                out.append({"alg": alg, "N": N, "t": tname, "radii_nm": tv})
+        for N in (5, 12, 33):                                # two radii very close together / very different scales
+            for tname, tv in CLOSE_RADII:
                 out.append({"alg": alg, "N": N, "t": tname, "radii_nm": tv})
         for N in (6, 17, 42) + ((98, 162) if tier == "quick" else (98, 162, 200)):     # many shells / large N
             for tname, tv in MANY_SHELLS if N <= 42 else RADIALS[2:4]:
